@@ -254,6 +254,9 @@ also("C07", "(R-WALK-COUNT) the loop of Each/Slice that reads the buffer is boun
 also("C12", "(R-ROW-LENGTH) in LCSFunc a row buffer indexed up to len(x) was allocated from len(x).")
 also("C13", "(R-LR-PAIRING) in New a running position is compared only with the range fields set from it; (R-GUARD-SUBJECT) in AddContext a block guarded by len(v) != 0 uses v; an index is not left without its own bound while another value is held below that field's length.")
 also("C14", "R-CURSOR-SIDE is op-aware: by how much each line counter has moved when control leaves the arm for an opcode (read off the counters' phi edges) is Drop [L+X], Copy [R+Y], Replace [L+X, R+Y], Emit [L+X, R+X]; a span helper is handed two positions of one side; a command line names left first, right last; no span formatter prints the bare end of a half-open range.")
+also("C13", "In UnifyChunks the length test that lets an edit go measures the X span of that very edit; a span is cut onto itself and measured on itself; the join appends the neighbouring edit's span of the same kind.")
+also("C13", "(R-STALE-READ) no pointer to an end of an edit list outlives the drop of that end.")
+also("C14", "(R-STALE-READ) no field of the readers is read into a kept value right after it was reset in the same block (the chunk list handed to a Patch is read before it is cleared).")
 # ---- eighth round (slips in refactored code)
 also("C01", "The helper that unlinks the in-order successor hands back a node whose small-side child is nil by a dominating branch fact (it is the minimum).")
 also("C04", "R-OK-FORWARD also reports an accessor that returns a lookup's value with the negation of that lookup's ok.")
